@@ -261,6 +261,10 @@ def _nodes(draw, ids, budget, depth, in_subtest, in_td, strict, maxdepth, min_si
       g['s'] = _nodes(draw, ids, budget, depth + 1, in_subtest, in_td, strict, maxdepth, cfg=scfg) if draw(st.booleans()) else []
       g['m'] = _nodes(draw, ids, budget, depth + 1, in_subtest, in_td, strict, maxdepth, cfg=cfg)
       g['td'] = _nodes(draw, ids, budget, depth + 1, in_subtest, True, strict, maxdepth, min_size=1, cfg=cfg) if draw(st.integers(0, 4)) else []
+      if (g['s'] or g['td']) and draw(st.integers(0, 5)) == 0:
+        # built through PhaseGroup.with_context(setup, teardown): 'second' = the creator has been used before, with the
+        # setup / teardown nodes handed over as one-shot iterables (generators)
+        g['via'] = draw(st.sampled_from(['context', 'context-second']))
       out.append(g)
   return out
 
@@ -803,6 +807,12 @@ def build_node(node, ctx, htf, plug_map=None):
     return htf.BranchSequence(_mk_cond(node['cond'], htf), *kids(node['c']), name='b%d' % node['id'])
   if t == 'subtest':
     return htf.Subtest('s%d' % node['id'], *kids(node['c']))
+  if t == 'group' and node.get('via'):
+    creator = htf.PhaseGroup.with_context((x for x in kids(node['s'])), (x for x in kids(node['td'])))
+    if node['via'] == 'context-second':
+      creator()          # an earlier group from the same creator (never executed)
+    import attr as _attr  # pylint: disable=g-import-not-at-top
+    return _attr.evolve(creator(*kids(node['m'])), name='g%d' % node['id'])
   if t == 'group':
     return htf.PhaseGroup(setup=kids(node['s']) or None, main=kids(node['m']) or None,
                           teardown=kids(node['td']) or None, name='g%d' % node['id'])
